@@ -43,8 +43,20 @@ def decode_strip(out):
 
 
 def gen_trace(rng, nlines):
-    ts = lambda: "%04d-%02d-%02d %02d:%02d:%02d.%06d" % (rng.randint(1, 9999), rng.randint(1, 12), rng.randint(1, 28), rng.randint(0, 23),
-                                                          rng.randint(0, 59), rng.randint(0, 59), rng.randint(0, 999999))
+    import calendar
+
+    def ts():
+        # every valid calendar date and time of day, biased to the ends of each field's range
+        edge = rng.random() < 0.4
+        y = rng.choice([1, 999, 1000, 1999, 2000, 2024, 2026, 9999]) if edge else rng.randint(1, 9999)
+        mo = rng.choice([1, 9, 10, 12]) if edge else rng.randint(1, 12)
+        last = calendar.monthrange(y, mo)[1]
+        d = rng.choice([1, 9, 10, 19, 20, 28, last, last, last - 1]) if edge else rng.randint(1, last)
+        h = rng.choice([0, 9, 10, 19, 20, 23]) if edge else rng.randint(0, 23)
+        mi = rng.choice([0, 9, 10, 59]) if edge else rng.randint(0, 59)
+        sec = rng.choice([0, 9, 10, 59]) if edge else rng.randint(0, 59)
+        us = rng.choice([0, 1, 999999, 100000]) if edge else rng.randint(0, 999999)
+        return "%04d-%02d-%02d %02d:%02d:%02d.%06d" % (y, mo, d, h, mi, sec, us)
     word = lambda: "".join(rng.choice("abcdefXYZ_0123456789") for _ in range(rng.randint(1, 8)))
     bodies = ["[%s] e->%s() %s->%s" % (word(), rng.choice(["start_at", word()]), word(), word()) for _ in range(nlines)]
     return bodies, ["[%s] %s" % (ts(), b) for b in bodies]
@@ -246,6 +258,7 @@ def explore_stmts(run, n_random):
         mod = importlib.util.module_from_spec(spec)
         spec.loader.exec_module(mod)
         outs = leanrun.run_driver(["leak " + " ".join(str(t) for t in enc_stmt(s)) for s in stmts])
+        obs = {}
         for i, (s, mo) in enumerate(zip(stmts, outs)):
             leak_m, gets_m, sets_m, line_m = mo.split(" ", 3)
 
@@ -271,12 +284,58 @@ def explore_stmts(run, n_random):
                 run.disagree("statement renderer", cj, line_m, line)
             elif err is None and str(leak) != leak_m:
                 run.disagree("lock acquisitions held after a statement", cj, "leak=%s (gets %s, sets %s)" % (leak_m, gets_m, sets_m), "leak=%d" % leak)
+            obs[i] = (leak, err)
             if err is None:
                 run.count("stmt class %s, leak %d" % (stmt_class(s) if leak else "no-leak", min(leak, 2)))
                 if leak:
                     run.violate("C28/lock-leak/%s" % stmt_class(s),
                                 "after the statement `%s` the calling thread still holds the attribute's lock (%d acquisition(s))" % (line, leak), cj)
             run.case(cj, nontrivial=True)
+        # the same attribute used by ANOTHER statement at the same file and line (an edited and reloaded module):
+        # the verdict on a statement must come from the text that is running now
+        import linecache
+        clean = [i for i in obs if obs[i] == (0, None)]
+
+        path2 = os.path.join(VERIF, "harness", "_gen_reload_%d.py" % os.getpid())
+        try:
+            for k in range(min(60, len(clean) * 2)):
+                ia, ib = rng.choice(clean), rng.choice(clean)
+
+                class Obj3(metaclass=mtsa.MetaThreadSafeAttributes):
+                    _attributes = ["x"]
+                o3 = Obj3()
+                desc3 = Obj3.__dict__["x"]
+                for turn, i in enumerate((ia, ib)):
+                    with open(path2, "w") as f:
+                        f.write("def f(a):\n    return 3\n\ndef g(o, v0, v1, v2, d):\n    %s\n" % render_stmt(stmts[i]))
+                    os.utime(path2, (1000000 + 10 * k + turn, 1000000 + 10 * k + turn))
+                    linecache.checkcache(path2)
+                    spec2 = importlib.util.spec_from_file_location("_gen_reload", path2)
+                    mod2 = importlib.util.module_from_spec(spec2)
+                    spec2.loader.exec_module(mod2)
+                    desc3._lock = dsched.DRLock()
+                    d = {0: 7, 1: 8, 2: 9, 3: 1, 4: 2, 5: 3, 6: 4, 7: 5, 8: 6, 9: 0, "k0": 1, "k1": 2}
+                    for kk in range(0, 4000):
+                        d.setdefault(kk, kk)
+                    err = None
+                    try:
+                        mod2.g(o3, 1, 2, 3, d)
+                    except Exception as ex:  # noqa
+                        err = type(ex).__name__
+                    leak = desc3._lock._count
+                    if err is None and leak:
+                        cj = {"what": "stmt-reload", "first": render_stmt(stmts[ia]), "second": render_stmt(stmts[ib]), "turn": turn}
+                        run.violate("C28/lock-leak/same-location-other-statement",
+                                    "`%s` releases the lock when run from a fresh module, but run at the same file and line where `%s` ran "
+                                    "before (edited + reloaded module) it leaves the lock held %d time(s)"
+                                    % (render_stmt(stmts[i]), render_stmt(stmts[ia]), leak), cj)
+                run.count("same file and line, other statement")
+                run.case({"what": "stmt-reload", "first": render_stmt(stmts[ia]), "second": render_stmt(stmts[ib])}, nontrivial=ia != ib)
+        finally:
+            try:
+                os.unlink(path2)
+            except OSError:
+                pass
         # the documented lock form
         import tsa_stmts
 
@@ -322,17 +381,31 @@ def json_equal(a, b):
     return a == b
 
 
+ATTR_LIKE_NAMES = ["keys", "items", "values", "get", "pop", "update", "clear", "copy", "append", "setdefault", "popitem",
+                   "move_to_end", "highest_inner_signal", "name_for_signal", "is_inner_signal", "__doc__", "__class__", "__dict__",
+                   "__len__", "fromkeys"]
+
+
 def explore_json(run, n_random):
     rng = run.rng
     for k in range(n_random):
         name = rng.choice(["A", "B", "ENTRY_SIGNAL", "x y", "é", "N%d" % rng.randint(0, 10 ** 9), "NEW_%d_%d" % (run.seed, rng.randint(0, 10 ** 9)),
                            "with\"quote", "back\\slash"])
+        if rng.random() < 0.25:
+            # names that are also attributes of the registry object (an OrderedDict subclass)
+            name = rng.choice(ATTR_LIKE_NAMES)
+            run.count("signal name that is also an attribute of the registry object")
         payload = gen_json(rng, 3)
         known_before = name in mevent.signals
-        e = Event(signal=name, payload=payload)
-        text = Event.dumps(e)
-        back = Event.loads(text)
         cj = {"what": "json", "name": name, "payload": repr(payload)[:200]}
+        try:
+            e = Event(signal=name, payload=payload)
+            text = Event.dumps(e)
+            back = Event.loads(text)
+        except Exception as ex:  # noqa
+            run.violate("C26/exception", "Event(signal=%r) / dumps / loads raised %s: %s" % (name, type(ex).__name__, ex), cj)
+            run.case(cj, nontrivial=True)
+            continue
         run.traces_validated += 1
         run.count("payload " + type(payload).__name__)
         if back.signal_name != name:
